@@ -394,13 +394,9 @@ def attachResult (h : Heap) (x : Tens) (parent : Option Nat) : Heap × Nat :=
     | none => h
   (h, o)
 
-/-- everything `Tensor._op` does after the forward pass succeeded: view detection and base
-assignment, stale-base fix-up and gradient nulling of the inputs, constant inference, recording of
-the op and of the consumer relation, creation of the result tensor -/
-def recordOp (h : Heap) (kind : Kind) (vars userTensors : List Nat) (c : Bool)
-    (constant : Option Bool) (whereMask : Option (Shape × List Bool)) (outArr : Arr)
-    (parent : Option Nat) : Heap × Nat :=
-  -- view detection: base assignment (literal operands cannot share memory here)
+/-- view detection (base assignment; literal operands cannot share memory here) followed by the
+stale-base fix-up and gradient nulling of the tensor inputs -/
+def prepInputs (h : Heap) (userTensors : List Nat) (parent : Option Nat) : Heap × Option Nat :=
   let (h, base) : Heap × Option Nat :=
     match parent with
     | none => (h, none)
@@ -409,14 +405,26 @@ def recordOp (h : Heap) (kind : Kind) (vars userTensors : List Nat) (c : Bool)
       let h := if pt.base.isSome ∧ pt.creator.isNone then h.modT p ({ · with base := none }) else h
       let pt := h.t p
       (h, some (pt.base.getD p))
-  -- stale-base fix-up and grad nulling for tensor inputs
   let h := userTensors.foldl (fun h v =>
     let tv := h.t v
     let h := if tv.base.isSome ∧ tv.creator.isNone then h.modT v ({ · with base := none }) else h
     if base.isNone then h.modT v ({ · with grad := none, viewGrad := none }) else h) h
+  (h, base)
+
+/-- the record kept for an op: its kind and arguments, its variables, its `where=` mask and — for a
+view op — the `constant=` argument to replay it with -/
+def mkOpRec (kind : Kind) (vars : List Nat) (whereMask : Option (Shape × List Bool)) (fc : Option Bool) : OpRec :=
+  { kind := kind, vars := vars, whereMask := whereMask, forceConst := fc }
+
+/-- everything `Tensor._op` does after the forward pass succeeded: view detection and base
+assignment, stale-base fix-up and gradient nulling of the inputs, recording of the op and of the
+consumer relation, creation of the result tensor (with the inferred `constant` flag `c`) -/
+def recordOp (h : Heap) (kind : Kind) (vars userTensors : List Nat) (c : Bool)
+    (constant : Option Bool) (whereMask : Option (Shape × List Bool)) (outArr : Arr)
+    (parent : Option Nat) : Heap × Nat :=
+  let (h, base) := prepInputs h userTensors parent
   let (h, f) := h.fresh
-  let h := h.setOp f { kind := kind, vars := vars, whereMask := whereMask,
-                       forceConst := if base.isSome then constant else none }
+  let h := h.setOp f (mkOpRec kind vars whereMask (if base.isSome then constant else none))
   let h := vars.foldl (fun h v => h.modT v fun t => { t with ops := f :: t.ops }) h
   attachResult h { data := outArr, const := c, creator := some f, base := base } parent
 
